@@ -471,7 +471,14 @@ func (mn mon) Run(sh drv.Shard, c *drv.Ctx) {
 						ops3 := append([]TOp(nil), base...)
 						ops3 = append(ops3, TOp{Op: "group", Node: p, Group: "g1"}, TOp{Op: "with", Node: p, Attrs: childAttr(1)}, TOp{Op: "with", Node: p + 1, Attrs: childAttr(2)}, TOp{Op: "with", Node: p + 1, Attrs: childAttr(3)},
 							TOp{Op: "log", Node: p + 3, Level: 1, Msg: "m"}, TOp{Op: "log", Node: p + 4, Level: 1, Msg: "m"}, TOp{Op: "log", Node: p + 2, Level: 1, Msg: "m"}, TOp{Op: "log", Node: p + 1, Level: 1, Msg: "m"})
-						for _, o := range [][]TOp{ops, ops2, ops3} {
+						// order 4: the parent ends in a group whose name needs escaping (a size computed
+						// from the raw name is too small then), two With children, then logs
+						escNames := []string{"a\"b", "back\\slash", "ctl\x01", "bad\xffutf", "sep\u2028", "q\"\"\"\"", "tab\tname with space"}
+						ops4 := append([]TOp(nil), base...)
+						ops4 = append(ops4, TOp{Op: "group", Node: p, Group: escNames[(pad+k)%len(escNames)]},
+							TOp{Op: "with", Node: p + 1, Attrs: childAttr(0)}, TOp{Op: "with", Node: p + 1, Attrs: childAttr(4)}, TOp{Op: "group", Node: p + 1, Group: escNames[(pad+k+1)%len(escNames)]},
+							TOp{Op: "log", Node: p + 2, Level: 1, Msg: "m"}, TOp{Op: "log", Node: p + 3, Level: 1, Msg: "m"}, TOp{Op: "log", Node: p + 4, Level: 1, Msg: "m"}, TOp{Op: "log", Node: p + 1, Level: 1, Msg: "m"})
+						for _, o := range [][]TOp{ops, ops2, ops3, ops4} {
 							cs := Case{Kind: kind, Ops: o, AddSource: idx%9 == 0}
 							if c.NumSamples() < 1 && pad == 40 {
 								c.Sample(map[string]any{"handler": kind, "history": opsKey(o)})
@@ -553,7 +560,11 @@ func (mn mon) Run(sh drv.Shard, c *drv.Ctx) {
 					depthOf = append(depthOf, depthOf[node]+1)
 					kids = append(kids, 0)
 				case x < 6 && depthOf[node] < 5 && kids[node] < 4:
-					cs.Ops = append(cs.Ops, TOp{Op: "group", Node: node, Group: fmt.Sprintf("g%d", r.Intn(4))})
+					gname := fmt.Sprintf("g%d", r.Intn(4))
+					if r.Intn(3) == 0 {
+						gname = attrgen.Awkward[1+r.Intn(len(attrgen.Awkward)-1)]
+					}
+					cs.Ops = append(cs.Ops, TOp{Op: "group", Node: node, Group: gname})
 					kids[node]++
 					depthOf = append(depthOf, depthOf[node]+1)
 					kids = append(kids, 0)
